@@ -1,4 +1,4 @@
-//go:build verif
+//go:build verif && (verif_c08 || verif_c19)
 
 // Verification-only exports (build tag verif), part 2:
 //   - a Peer with a REAL memberlist on a caller-supplied memberlist.Transport (in-memory hub in the harness),
